@@ -19,6 +19,9 @@ in known_findings.jsonl). What is proved:
   read at its tip, every read through the caches is the trie's;
 * `cache_refines_trie_keep` — with the one-line change "add the entry instead of replacing the map"
   (`keep = true`) the full statement holds for every tree of blocks;
+* `cache_subset_trie_keep`, `cache_subset_trie_linear_partial` — cache ⊆ trie in every reachable state, over an
+  operation language with refused inserts (`insfail`), reads that cannot use a hit (`getn`, `getr`), interrupted
+  (`babort`) and re-computed blocks;
 * `failed_txn_leaves_no_trace` — both variants, every history;
 * `lossy_clone_breaks`, `lossy_copyFrom_breaks` — the hypotheses on `Clone`/`CopyFrom` are necessary.
 The aliasing half of the property (mutating a returned object) has no counterpart in a model with immutable values:
@@ -81,6 +84,87 @@ theorem cache_refines_trie_linear_partial {cfg : Cfg} (hf : Faithful cfg) (ops :
       obtain ⟨h1, h2⟩ := step_lin hf hw op hl.1
       exact ⟨h2, ih _ _ h1 hl.2⟩
   exact this ops {} 0 lin_init hlin
+
+/-! ### cache ⊆ trie at every reachable state
+
+The operation language includes inserts the trie refuses (`insfail`: the cache must stay untouched, whatever the
+caller does next — tolerate the error and commit included), reads that cannot use a hit (`getn`, `getr`), block
+executions dropped after some of their transactions (`babort`) and computed again later under the same hash
+(`begin_` with that hash). -/
+
+/-- every node of every cache layer says what the corresponding trie holds -/
+structure CacheAgrees (w : World) : Prop where
+  state : ∀ k m b n, KV.get w.sc.cache k = some m → KV.get m b = some n →
+    ∃ T, KV.get w.tries b = some T ∧ Agrees n (KV.get T k)
+  block : ∀ e, w.cur = some e → ∀ k n, KV.get e.bc k = some n → Agrees n (KV.get e.trie k)
+  txn : ∀ e t, w.cur = some e → e.txn = some t → ∀ k n, KV.get t.tc k = some n → Agrees n (KV.get t.trie k)
+
+theorem Layer.entry {c : KV VNode} {hi lo : KV Nat} (h : Layer c hi lo) {k : Nat} {n : VNode}
+    (hn : KV.get c k = some n) : Agrees n (KV.get hi k) := by
+  have := h k; rw [hn] at this; exact this
+
+theorem run_tree {cfg : Cfg} (hf : Faithful cfg) (hk : cfg.keep = true) (ops : List Op) :
+    ∀ (w : World), TreeInv w → (∀ x p, Op.begin_ x p ∈ ops → x ≠ 0) → TreeInv (run cfg w ops) := by
+  induction ops with
+  | nil => intro w hw _; exact hw
+  | cons op ops ih =>
+    intro w hw hops
+    exact ih _ (step_tree hf hk hw op (fun x p he => hops x p (by simp [he]))).1 (fun x p hm => hops x p (by simp [hm]))
+
+/-- **cache ⊆ trie** (variant that keeps entries): in every state reachable by any history — any tree of blocks,
+refused inserts, interrupted and re-computed blocks — every cache node agrees with its trie. -/
+theorem cache_subset_trie_keep {cfg : Cfg} (hf : Faithful cfg) (hk : cfg.keep = true) (ops : List Op)
+    (hops : ∀ x p, Op.begin_ x p ∈ ops → x ≠ 0) : CacheAgrees (run cfg {} ops) := by
+  have h := run_tree hf hk ops {} tree_init hops
+  refine ⟨h.sc.sound, ?_, ?_⟩
+  · intro e he k n hn
+    obtain ⟨_, Tp, _, hl, _, _⟩ := h.exec e he
+    exact hl.entry hn
+  · intro e t he ht k n hn
+    obtain ⟨_, Tp, _, _, _, hx⟩ := h.exec e he
+    exact (hx t ht).1.entry hn
+
+theorem run_lin {cfg : Cfg} (hf : Faithful cfg) (ops : List Op) :
+    ∀ (w : World) (tip : Nat), LinInv w tip → LinHist cfg w tip ops → ∃ tip', LinInv (run cfg w ops) tip' := by
+  induction ops with
+  | nil => intro w tip hw _; exact ⟨tip, hw⟩
+  | cons op ops ih =>
+    intro w tip hw hl
+    exact ih _ _ (step_lin hf hw op hl.1).1 hl.2
+
+/-- **cache ⊆ trie**, partial (the code as it is, one chain read at its tip, with refused inserts and interrupted /
+re-computed blocks): the transaction and block caches agree with their tries, and so does every state-cache entry
+that a read from the tip can reach. -/
+theorem cache_subset_trie_linear_partial {cfg : Cfg} (hf : Faithful cfg) (ops : List Op)
+    (hlin : LinHist cfg {} 0 ops) :
+    ∃ tip, (∀ k m b n, KV.get (run cfg {} ops).sc.cache k = some m → Clear m (run cfg {} ops).sc.hashes tip b →
+        KV.get m b = some n → ∃ T, KV.get (run cfg {} ops).tries b = some T ∧ Agrees n (KV.get T k)) ∧
+      (∀ e, (run cfg {} ops).cur = some e → ∀ k n, KV.get e.bc k = some n → Agrees n (KV.get e.trie k)) ∧
+      (∀ e t, (run cfg {} ops).cur = some e → e.txn = some t → ∀ k n, KV.get t.tc k = some n →
+        Agrees n (KV.get t.trie k)) := by
+  obtain ⟨tip, h⟩ := run_lin hf ops {} 0 lin_init hlin
+  refine ⟨tip, ?_, ?_, ?_⟩
+  · intro k m b n hm hc hn
+    obtain ⟨Tb, _, h1, _, _, h4⟩ := h.sc.clear k m b hm hc
+    exact ⟨Tb, h1, h4 n hn⟩
+  · intro e he k n hn
+    obtain ⟨_, _, Tp, _, hl, _, _⟩ := h.exec e he
+    exact hl.entry hn
+  · intro e t he ht k n hn
+    obtain ⟨_, _, Tp, _, _, _, hx⟩ := h.exec e he
+    exact (hx t ht).1.entry hn
+
+/-- a refused insert that the caller tolerates, then a commit: what the next transaction reads through the caches is
+the trie's (old) value — the instance of the theorems the round-2 change to `InsertTrieNode` falsifies -/
+theorem refused_insert_not_cached :
+    (step {} (run {} {} [.begin_ 1 0, .tx, .ins 1 10, .commit, .tx, .insfail 1, .commit, .tx]) (.get 1)).2 = .val 10 ∧
+    (step {} (run {} {} [.begin_ 1 0, .tx, .ins 1 10, .commit, .tx, .insfail 1]) (.probe 1)).2 = .val 10 := by decide
+
+/-- a block dropped after its first transaction and computed again: reads at it and at its child see the trie -/
+theorem interrupted_block_recomputed :
+    (step {} (run {} {} [.begin_ 1 0, .tx, .ins 1 10, .commit, .tx, .ins 2 20, .commit, .bcommit,
+        .begin_ 2 1, .tx, .ins 1 11, .commit, .babort,
+        .begin_ 2 1, .tx, .ins 1 11, .commit, .tx, .ins 2 21, .commit, .bcommit]) (.query 2 2)).2 = .val 21 := by decide
 
 /-- **failed_txn_leaves_no_trace** (either variant, any `Clone`/`CopyFrom`): after `tx; …; discard` the block
 execution — its block cache and its trie — and the computed blocks are exactly as before the transaction, and the
